@@ -9,7 +9,7 @@ the check silent and one that breaks it yields a concrete failing history."""
 
 
 def run(ctx):
-    ctx.lean_obligations(["SV.Props.C12"], drivers=["svdriver_c12"])
+    ctx.lean_obligations(["SV.Props.C12", "SV.Props.C12b", "SV.Props.C12x"], drivers=["svdriver_c12"])
     quick = ctx.tier == "quick"
     b = ctx.go_test_binary("fs/layer", "h_layer")
     if b:
@@ -23,7 +23,27 @@ def run(ctx):
         if br:
             ctx.correspond(br, "TestVerifC12Conc", "svdriver_c12", "c12conc", env={"VERIF_N": 40})
     # ---- holder side (fs/fs.go) with a real kernel FUSE mount: oracle only
+    nb = len(ctx.broken)
     bf = ctx.go_test_binary("fs", "h_fs")
+    bfb = bf
+    if not bf:
+        # zz_verif_c12b_test.go is the one file naming unexported identifiers of package fs
+        del ctx.broken[nb:]
+        bf = ctx.go_test_binary("fs", "h_fs", only=["c12mount"])
+        if bf:
+            ctx.notes.append("optional in-package harness zz_verif_c12b_test.go (filesystem.layer / layerMu / resolver / "
+                             "disableVerification / allowNoVerification) no longer builds against this tree: the holder-side "
+                             "model correspondence (SV.Model.FsMount) was skipped")
+    if bfb:
+        # ---- holder side (fs/fs.go) vs SV.Model.FsMount: correspondence + model-free oracle, real FUSE mounts
+        repb = ctx.correspond(bfb, "TestVerifC12b", "svdriver_c12", "c12b",
+                              env={"VERIF_N": 12 if quick else 150}, timeout=900)
+        if (repb.get("stats") or {}).get("fuse-unavailable"):
+            ctx.notes.append("fuse-unavailable: the holder-side correspondence stream (TestVerifC12b) was skipped")
+        else:
+            # regression scenario of the defect found by this stream and repaired by 62b0917: a Mount whose FUSE step
+            # fails must not leave its mountpoint registered (sig failed-fuse-mount-leaves-stale-entry); every run
+            ctx.correspond(bfb, "TestVerifC12bStaleEntry", "svdriver_c12", "c12bstale", timeout=300)
     if bf:
         rep = ctx.correspond(bf, "TestVerifC12Mount", "svdriver_c12", "c12mount",
                              env={"VERIF_N": 2 if quick else 10}, timeout=600)
@@ -36,6 +56,12 @@ def run(ctx):
             ctx.notes.append("candidate finding double-mount-leaks-layer (second fs.Mount on a mountpoint in use succeeds and "
                              "leaks the first layer) has its own probe TestVerifC12MountTwice; it runs once a known: line "
                              "with that sig is registered")
+    # cache-handle side: writers / readers of the layer's two directory caches still in flight at the
+    # release (oracle only; model + theorems: SV.Model.CacheDir / SV.Props.C12x)
+    bcache = ctx.go_test_binary("cache", "h_cache_c12")
+    if bcache:
+        ctx.correspond(bcache, "TestVerifC12Cache", "svdriver_c12", "c12cache",
+                       env={"VERIF_N": 120 if quick else 2000, "VERIF_RACES": 6 if quick else 40}, timeout=600)
     return ctx.finish(
         level="proof",
         rule="18 scripted edge histories (shared instance, expiry under a holder, failed blob resolution and failed "
@@ -52,6 +78,21 @@ def run(ctx):
              + ("; plus 6 rounds of an oracle-only concurrent stress (6 resolvers of one cold name, then of one name whose cached layer "
                 "just turned stale, share one resolved instance built once; holders read while others release/expire, everything reclaimed at the end)" if quick
                 else "; plus 40 rounds of that concurrent stress under the race detector")
+             + "; plus the holder-side stream TestVerifC12b on the real fs.filesystem (real resolver, scripted registry, real kernel FUSE "
+               "mounts, expiry through the cache shim): 4 scripted histories (two mountpoints sharing one layer with pre-resolved "
+               "neighbours and expiry under the holders; every way a Mount fails - blob, metadata, wrong / unparsable / missing TOC "
+               "digest, skip label without permission, verify after unverified use, stale cached layer; a failing FUSE step, after "
+               "which the mountpoint must be unknown to Check and Unmount; a second Mount on a mountpoint in use) then random histories of 8-25 ops over 3 layers and 4 "
+               "mountpoints (Mount with a 4-bit Resolve oracle, up to 3 neighbours each with its own oracle, the 2 verification flags, "
+               "4 TOC-label cases, skip label, FUSE ok/fail; Unmount of known and unknown mountpoints; Check with probe/refresh "
+               "oracle; timer expiry of either cache; Mount without sources; Unmount of the empty path), every 4th in the labelled "
+               "remount class, each drained; a history is distinct by its op-kind sequence; every op compared impl-vs-model (result "
+               "class, fs.layer as mountpoint:sharing-group:open, #fscache, #httpcache, #kernel mounts) and a model-free oracle: held "
+               "=> registered, Check() passes, byte-exact read through the kernel after expiry; failed Mount / unknown Unmount / Check "
+               "change nothing; Unmount removes exactly its entry, its kernel mount and evicts the instance; per cached layer "
+               "unreleased references == live mountpoints holding it; #fscache == cached or held instances; nothing left after the drain"
+             + "; plus the regression scenario TestVerifC12bStaleEntry of the defect this stream found (repaired by 62b0917): a Mount "
+               "failing at the FUSE step, alone and while another mountpoint holds the layer, leaves its mountpoint unregistered"
              + "; plus an fs.Mount-level pass with a real kernel FUSE mount (TTL 1 s, real timers): a mounted layer serves "
                "byte-exact reads through the kernel, also of never-fetched files, after its cache entry expired and while "
                "another layer is mounted/unmounted and mounts fail; Unmount and failed Mounts leave nothing after the TTL; "
@@ -63,6 +104,10 @@ def run(ctx):
             "both TTL caches satisfy C10 (reused model and theorems); their methods are atomic under the cache mutex",
             "newCache/MkdirTemp do not fail; the failures considered are connectivity checks, registry failures "
             "during blob resolution and a failing metadata (TOC) read",
+            "holder side (SV.Model.FsMount): Mount / Check / Unmount calls are sequential; the pre-resolution goroutines of one "
+            "Mount, concurrent in Go, are run in order after the target's Resolve (Resolves of different names commute, of one "
+            "name are serialised by the per-name lock; the harness waits for them); the FUSE mount step is an oracle bit in the "
+            "model and the real kernel in the harness; Check is taken on a layer that is not fully fetched, with noprefetch",
             "directory removal is observed on the real resolver root, in the model it is a flag per cache handle "
             "plus a ghost counter; real TTL timing (time.AfterFunc) is outside the model: expiry is an operation "
             "enabled at any time",
